@@ -12,12 +12,12 @@ CLAIMED = {
          "Theorem C01_exact: for all integers and every T>=1 the exact-arithmetic model of move_dist_lt equals the tick-by-tick firmware recurrence (both accumulator forms, "
          "both clear values), remainder in [0,2^31); aliases equal. The model is tied to ebb_calc.py/ebb_motion.py by running both on firmware-valid inputs (T up to 2^32-1) "
          "under varying ambient mpmath precision; every implementation output is also checked against the proved O(1) closed form of the recurrence.",
-         NOTE_COMMON + "Rounding of mpmath (30 digits) and of the float quotient accel/2 is exact on the domain by a pencil argument (DESIGN.md), sampled here, not proved in Coq.",
+         NOTE_COMMON + "move_dist_lt is re-translated from the source on every run (tools/py2v.py, mpmath calls read as exact arithmetic) and proved equal to the model. Rounding of mpmath (30 digits) and of the float quotient accel/2 is exact on the domain by a pencil argument (DESIGN.md), sampled here, not proved in Coq.",
          "DESIGN.md section 5, C01"),
  "C02": ("Coq proof: exact models = third-order recurrence for every tick count (induction) + correspondence",
          "Theorems C02_exact_dist / C02_exact_rate / C02_zero_jerk: for all integers and every T>=1 the exact models of move_dist_t3 and rate_t3 equal the tick-by-tick third-order "
          "recurrence incl. the three-tick clear rule; zero jerk coincides with move_dist_lt. Correspondence with ebb_calc.py over the firmware-valid domain under varying mpmath precision.",
-         NOTE_COMMON + "The accumulated rounding error of the jerk/6 path staying below 1/2 before round() is sampled, not proved.",
+         NOTE_COMMON + "move_dist_t3 and rate_t3 are re-translated from the source on every run (tools/py2v.py) and proved equal to the model. The accumulated rounding error of the jerk/6 path staying below 1/2 before round() is sampled, not proved.",
          "DESIGN.md section 5, C02"),
  "C03": ("Coq proof: O(1) checker equivalent to the tick-by-tick 'first tick reaching the budget' spec for all integers; every implementation output decided by it",
          "Theorem C03_checker_iff_spec: for all integers lm_check (closed-form total, closed-form count of steps taken around the single sign change of the rate) holds of an output "
@@ -96,7 +96,7 @@ CLAIMED = {
  "C17": ("Coq proof: discrete convexity argument over Z for all integers and all T + correspondence",
          "Theorems C17_is_a_tick, C17_ends, C17_within_jerk, C17_limit, C17_oracle_is_peak: for all integers and every T>=1 the exact model of max_rate_t3 reports the absolute rate of some tick 1..T, "
          "at least both end rates, and every tick's absolute rate is within |jerk| of it. Correspondence with ebb_calc.max_rate_t3 on vertex-boundary families.",
-         NOTE_COMMON + "The float quotient t_mid classifying like the rational one is sampled, not proved; the O(1) peak used to judge outputs is proved to be the true peak (C17_oracle_is_peak).",
+         NOTE_COMMON + "rate_t3 and max_rate_t3 are re-translated from the source on every run (tools/py2v.py) and proved equal to the model. The float quotient t_mid classifying like the rational one is sampled, not proved; the O(1) peak used to judge outputs is proved to be the true peak (C17_oracle_is_peak).",
          "DESIGN.md section 5, C17"),
  "C18": ("Coq proof (lra over Q) on a hand model; the four helpers re-translated from the source on every run (py2v) and proved equal to the model; exact-rational correspondence with /repo",
          "Theorems for all rationals: each helper returns the clamp of the value (value inside, nearer bound outside), flags exactly the outliers "
